@@ -115,7 +115,8 @@ Definition t_block (t : tok) : option ext_block :=
   match t with
   | TList [TInt 0] => Some XNone
   | TList [TInt 1; TList its] => match opt_map t_item its with Some l => Some (XOne l) | None => None end
-  | TList [TInt 2; TList its] => match opt_map t_item its with Some l => Some (XTwo l) | None => None end
+  | TList [TInt 2; TList its; TInt ab] => match opt_map t_item its with Some l => Some (XTwo ab l) | None => None end
+  | TList [TInt 2; TList its] => match opt_map t_item its with Some l => Some (XTwo 0 l) | None => None end
   | TList [TInt 3; TInt p; TBytes body] => Some (XLegacy p body)
   | _ => None
   end.
